@@ -1,17 +1,22 @@
 #!/bin/sh
 # Runs every seeded change against its property's quick check and writes seeded/RESULTS.json.
-# Applies each patch to /repo and reverts it; do not run while something else uses /repo.
+# Each patch is applied to a scratch worktree of /repo's HEAD ($WT, default /tmp/wtS) which the check reads through VERIF_REPO;
+# /repo itself is not touched.  evidence/ is saved first and restored afterwards (it must describe the unchanged tree).
 cd /verif || exit 2
+WT=${WT:-/tmp/wtS}
+[ -d "$WT" ] || git -C /repo worktree add -q --detach "$WT" HEAD || exit 2
+git -C "$WT" checkout -q --detach "$(git -C /repo rev-parse HEAD)" || exit 2
+git -C "$WT" checkout -- . ; git -C "$WT" clean -fdq
+SAVE=$(mktemp -d); cp evidence/*.json $SAVE/
 OUT=seeded/RESULTS.json
 echo "{" > $OUT.tmp
 first=1
-for d in seeded/C*-m*; do
-  id=$(basename $d); prop=${id%-*}
+for d in ${SEEDS:-seeded/C*-m*}; do
+  id=$(basename $d); prop=${id%%-*}
   P=$d/patch.diff; [ -f $d/patch_rebased.diff ] && P=$d/patch_rebased.diff
-  if ! git -C /repo diff --quiet; then echo "repo dirty"; exit 2; fi
-  if git -C /repo apply /verif/$P 2>/dev/null; then
-    res=$(./vf $prop --tier quick 2>&1)
-    git -C /repo checkout -- .
+  if git -C "$WT" apply /verif/$P 2>/dev/null; then
+    res=$(VERIF_REPO="$WT" ./vf $prop --tier quick 2>&1)
+    git -C "$WT" checkout -- . ; git -C "$WT" clean -fdq
     n=$(echo "$res" | grep -c "^VIOLATION")
     key=$(echo "$res" | grep -A1 "^VIOLATION" | grep "key=" | head -1 | sed 's/^ *key=//' | cut -c1-160 | sed 's/\\/\\\\/g; s/"/\\"/g')
     st="caught"; [ "$n" = "0" ] && st="not caught"
@@ -24,3 +29,4 @@ for d in seeded/C*-m*; do
   echo "$id: $st ($n)"
 done
 echo "" >> $OUT.tmp; echo "}" >> $OUT.tmp; mv $OUT.tmp $OUT
+cp $SAVE/*.json evidence/; rm -rf $SAVE
